@@ -136,14 +136,14 @@ struct M : Machine {
     if (o == "t.leavesUnder") {
       // the recursion does not terminate on a cycle reachable from the node: only on valid trees
       if (!T.isValid()) return "notvalid";
-      // on an unrooted (undirected) tree the sons of a son include the node itself: the recursion may never return
-      if (!Peek::directed(G)) return "unrooted";
+      // an unrooted (undirected) tree is refused (as repaired)
       return "l " + list(C.getLeavesUnderNode(toU(k[1])));
     }
     if (o == "t.path" || o == "t.epath") {
       unsigned a = toU(k[1]), b = toU(k[2]);
       bool inc = o == "t.epath" || toU(k[3]) != 0;
-      if (Peek::nodes(G).count(a) && Peek::nodes(G).count(b)) {
+      // an unrooted tree is refused before anything is climbed (as repaired)
+      if (Peek::directed(G) && Peek::nodes(G).count(a) && Peek::nodes(G).count(b)) {
         long ea = climbEnd(a), eb = climbEnd(b);
         if (ea == -2 || eb == -2) return "skip-cycle";
         if (ea >= 0 && eb >= 0 && ea != eb && inc) return "ub";
@@ -202,6 +202,7 @@ struct MD : Machine {
     if (o == "d.removeFather") { D.removeFather(toU(k[1]), toU(k[2])); return "ok"; }
     if (o == "d.removeSons") return "l " + list(D.removeSons(toU(k[1])));
     if (o == "d.removeFathers") return "l " + list(D.removeFathers(toU(k[1])));
+    if (o == "d.rootAt") { D.rootAt(toU(k[1])); return "ok"; }
     if (o == "d.valid") return B(D.isValid());
     if (o == "d.rooted") return B(C.isRooted());
     if (o == "d.belowN") return "l " + list(C.getBelowNodes(toU(k[1])));
